@@ -10,8 +10,9 @@ import sys
 import time
 
 ROOT = os.path.dirname(os.path.dirname(os.path.abspath(__file__)))
-EVIDENCE_DIR = os.path.join(ROOT, 'evidence')
-REPLAY_DIR = os.path.join(ROOT, 'replays')
+# (the seed-trial script redirects both so that trials never overwrite committed evidence)
+EVIDENCE_DIR = os.environ.get('VERIF_EVIDENCE_DIR') or os.path.join(ROOT, 'evidence')
+REPLAY_DIR = os.environ.get('VERIF_REPLAY_DIR') or os.path.join(ROOT, 'replays')
 KNOWN = os.path.join(ROOT, 'known_findings.json')
 
 
